@@ -19,7 +19,7 @@ ASSUMPTIONS = [
     "empty directories are not tracked (as the statement says) and are not expected back",
 ]
 MONITORS = "independent walk of the fresh location; reloaded Tree listing vs independent listing; reported nfiles/size vs data"
-REQUIRED_COUNTERS = ["staged_through_non_normalised_path", "staged_through_trailing_separator", "debris_objects_planted", "interleaved_stagings", "second_generation_roundtrips", "dirs_with_several_large_files", "restaged_after_checkout", "roundtrips", "files_compared", "route/object", "route/index-explicit", "route/index-lazy", "route/index-lazy-root", "two_cache_roundtrips", "single_file_cases",
+REQUIRED_COUNTERS = ["shallow_transfers_before_the_full_one", "index_persisted_and_reopened_before_checkout", "staged_through_non_normalised_path", "staged_through_trailing_separator", "debris_objects_planted", "interleaved_stagings", "second_generation_roundtrips", "dirs_with_several_large_files", "restaged_after_checkout", "roundtrips", "files_compared", "route/object", "route/index-explicit", "route/index-lazy", "route/index-lazy-root", "two_cache_roundtrips", "single_file_cases",
                      "store/local", "store/base", "link/hardlink", "link/symlink", "link/copy", "link/default", "with_state", "listing_reloads"]
 
 
@@ -128,6 +128,11 @@ def run_shard(ctx):
                             f.write(b"rewritten " + gen.small_content(rng))
                 res.count("interleaved_stagings")
                 cfgd["interleaved_staging"] = True
+            if not single and rng.random() < 0.15:
+                # first only the directory object goes over (a shallow transfer), then the full one
+                _transfer(_st, odb, {obj.hash_info}, shallow=True, hardlink=False)
+                res.count("shallow_transfers_before_the_full_one")
+                cfgd["shallow_first"] = True
             r = _transfer(_st, odb, {obj.hash_info}, shallow=False, hardlink=False)
             if r.failed:
                 res.violation("transfer-of-staged-objects-failed", f"{len(r.failed)} objects failed", case=case, detail=cfgd)
@@ -210,6 +215,22 @@ def run_shard(ctx):
                         idx.storage_map.add_cache(ObjectStorage(key=(), odb=odb))
                         cfgd["second_cache_at"] = "/".join(sp_)
                         res.count("two_cache_roundtrips")
+                if route == "index-lazy" and rng.random() < 0.3:
+                    # the index lives in SQLite: filled and expanded in one session, checked out in the next
+                    dbp = os.path.join(d, "index.db")
+                    pidx = DataIndex.open(dbp)
+                    pidx.storage_map = idx.storage_map
+                    for k_, e_ in list(idx._trie.items()):  # the raw entries as given: nothing is expanded by this copy
+                        pidx[k_] = e_
+                    pidx.commit()
+                    pidx.load()
+                    pidx.commit()
+                    pidx.close()
+                    sm_ = idx.storage_map
+                    idx = DataIndex.open(dbp)
+                    idx.storage_map = sm_
+                    res.count("index_persisted_and_reopened_before_checkout")
+                    cfgd["sqlite_reopened"] = True
                 diff = compare(None, idx)
                 apply(diff, out if route == "index-lazy-root" else os.path.dirname(out), fs, storage="cache", links=links, state=state,
                       onerror=lambda s, dst, e: errors.append((dst, repr(e))), update_meta=rng.random() < 0.5)
